@@ -188,9 +188,8 @@ def gen_project(rng):
         #  racy_open        didOpen / didChange / willDelete may arrive while a background task runs
         #  stale_replay     a file may be deleted/renamed while it is the target of the latest change
         #  rename_during_bg didRename may arrive while a background task is pending
-        #  path_reuse       a file may (re)appear under a path that was open earlier in the session
-        "hazard": rng.pick(["none"] * 7 + ["racy_open"] * 4 + ["stale_replay"] * 3 +
-                           ["rename_during_bg"] * 3 + ["path_reuse"] * 3),
+        "hazard": rng.pick(["none"] * 10 + ["racy_open"] * 4 + ["stale_replay"] * 3 +
+                           ["rename_during_bg"] * 3),
         "name": "c07prj",
     }
     return cfg, models
@@ -260,6 +259,7 @@ class Gen:
         self.hazard = cfg.get("hazard", "none")
         self.ever_open = set()
         self.latest_target = None             # file of the last didOpen/didChange (server: latest_change)
+        self.recreate_info = None
 
     # ---- helpers ----
     def fresh(self, prefix):
@@ -286,7 +286,9 @@ class Gen:
         return True
 
     def path_ok(self, rel):
-        return self.hazard == "path_reuse" or rel not in self.ever_open
+        # Re-using a path that was open earlier was hazard class D; since fix f072381 it is part of
+        # the judged workload of every history.
+        return True
 
     def existing(self):
         return sorted(self.disk.keys() | self.open.keys())
@@ -637,9 +639,75 @@ class Gen:
             if len(self.open) >= 2:
                 break
             self.op_open(rel)
-        if self.hazard in ("stale_replay", "rename_during_bg", "path_reuse"):
+        if self.hazard in ("stale_replay", "rename_during_bg"):
             self.hazard_finale()
+        if self.cfg.get("recreate"):
+            self.recreate_info = self.recreate_finale()
         return self.ops
+
+    def recreate_finale(self):
+        """Judged (hazard-free) scenario: a file X that is OPEN and that an open file Y references is
+        renamed away or deleted, later a file re-appears on disk under X's path (with or without being
+        re-opened, same or changed content); after the next background pass Y is re-analysed and
+        compared with a fresh server."""
+        xy = self.provider_user()
+        if not xy:
+            return None
+        x, y = xy
+        rng = self.rng
+        if x not in self.open:
+            self.op_open(x)
+        variant = self.cfg.get("recreate_variant") or rng.pick(RECREATE_VARIANTS)
+        changed = None
+        if variant.startswith("rename_back"):
+            tmp = self.new_name(x)
+            if not self.rename_file(x, tmp, "synced", None):
+                return None
+            if variant == "rename_back_closed":
+                self.op_close(tmp)
+            if not self.rename_file(tmp, x, "synced", None):
+                return None
+        else:
+            m = copy.deepcopy(self.models[x])
+            if not self.delete_file(x):
+                return None
+            r = rng.below(3)
+            if r == 0 and m.consts:
+                m.consts.pop(0)                       # the declaration Y refers to is gone
+                changed = "removed_decl"
+            elif r == 1 and m.consts:
+                m.consts[0][0] = self.fresh(m.consts[0][0].rstrip("0123456789_r") + "_r")
+                changed = "renamed_decl"
+            self.models[x] = m
+            text = m.render()
+            if variant == "delete_recreate_open":
+                self.open[x] = text
+                self.disk[x] = text
+                self.emit({"op": "create", "file": x, "text": text})
+            else:
+                self.disk[x] = text
+                self.emit({"op": "disk_create", "file": x, "text": text})
+                # something has to make the server look at the disk again (a background pass)
+                cl = [r2 for r2 in self.closed() if r2 != x]
+                if cl:
+                    self.op_open(rng.pick(cl))
+                else:
+                    z = [r2 for r2 in sorted(self.open) if r2 != x]
+                    if not z:
+                        return None
+                    zz = rng.pick(z)
+                    newz = self.new_name(zz)
+                    if not self.rename_file(zz, newz, "synced", None):
+                        return None
+                    if zz == y:
+                        y = newz
+        if y not in self.open:
+            return None
+        self.emit({"op": "wait"})
+        self.emit({"op": "probe", "file": y})
+        self.features.add("path_recreated:" + variant)
+        return {"path": x, "user": y, "variant": variant, "changed": changed,
+                "reopened": x in self.open}
 
     def provider_user(self):
         """(X, Y): X = package file, Y = open, syntactically intact file whose text refers to X's package."""
@@ -722,13 +790,26 @@ class Gen:
             self.features.add("finale_path_reuse")
 
 
+# without re-opening the path (the first two) the server has to pick the file up from disk again
+RECREATE_VARIANTS = ["rename_back_closed", "delete_recreate_disk", "rename_back_open", "delete_recreate_open"]
+
+
 def gen_case(seed, index, nmsgs):
     rng = Rng.for_case(seed, PROP, index)
     cfg, models = gen_project(rng)
+    if index % 2 == 0:
+        # guaranteed share: every second history is hazard-free and ends with the path re-creation
+        # scenario, alternating incremental on / off
+        cfg["hazard"] = "none"
+        cfg["recreate"] = True
+        k = index // 2
+        cfg["recreate_variant"] = RECREATE_VARIANTS[k % len(RECREATE_VARIANTS)]
+        cfg["incremental"] = (k + k // 4 + seed) % 2 == 0
     files = {r: m.render() for r, m in models.items()}
     g = Gen(rng, cfg, models, nmsgs)
     ops = g.run()
-    return {"index": index, "cfg": cfg, "files": files, "ops": ops, "features": sorted(g.features)}
+    return {"index": index, "cfg": cfg, "files": files, "ops": ops, "features": sorted(g.features),
+            "recreate": g.recreate_info}
 
 
 # ======================================================================================
@@ -850,6 +931,12 @@ class Client:
                 return
             self.write(op["file"], op["text"])
             self.do_open(op["file"], op["text"])
+        elif k == "disk_create":
+            # a file appears on disk without any notification (delete undone, checkout, ...)
+            if op["file"] in self.open or self.on_disk(op["file"]):
+                self.skipped_ops += 1
+                return
+            self.write(op["file"], op["text"])
         elif k == "change":
             if op["file"] not in self.open:
                 self.skipped_ops += 1
@@ -1091,6 +1178,13 @@ def run_case(case, scratch, timeout):
         res["late_rescans"] = c.late_rescans
         res["floating_left"] = c.floating
         res["open_files"] = len(c.open)
+        rc = case.get("recreate")
+        if rc:
+            # the path must really be back on disk and the referencing file must be among the compared ones
+            res["path_recreated"] = 1 if c.on_disk(rc["path"]) else 0
+            res["recreate_user_compared"] = 1 if rc["user"] in hres and res["path_recreated"] else 0
+            res["recreate_variant"] = rc["variant"] + (":" + rc["changed"] if rc.get("changed") else "") + \
+                (":inc" if case["cfg"]["incremental"] else ":noinc")
         buffers = dict(c.open)
         # cold reference: H is still alive and holds the cache-ls lock, so this server cannot restore
         cres, csent, ctrans, _ = fresh_run(root, home, base, "fresh_cold", buffers, timeout)
@@ -1291,6 +1385,10 @@ def main():
             else:
                 run.count("histories_incremental_off")
             run.seen("hazard_classes", case["cfg"].get("hazard", "none"))
+            if r.get("path_recreated"):
+                run.count("path_recreated_histories")
+                run.count("referencing_file_compared_after_recreate", r.get("recreate_user_compared", 0))
+                run.seen("path_recreate_variants", r.get("recreate_variant"))
             for f in r.get("features", []):
                 run.seen("history_features", f.split(":")[0])
                 if f.startswith("break_syntax:"):
@@ -1315,7 +1413,9 @@ def main():
               ("messages_sent", nhist * nmsgs // 2),
               ("histories_with_nonempty_diagnostics", max(1, nhist // 3)),
               ("histories_with_cross_file_effect", max(1, nhist // 5)),
-              ("distinct_nontrivial", max(1, nhist // 3))]
+              ("distinct_nontrivial", max(1, nhist // 3)),
+              ("path_recreated_histories", max(1, nhist // 6)),
+              ("referencing_file_compared_after_recreate", max(1, nhist // 6))]
     if nhist >= 6 and not args.replay:
         floors += [("histories_incremental_on", 1), ("histories_incremental_off", 1)]
     if args.replay:
